@@ -6,21 +6,35 @@ MANIFEST = {
     "text": "Lean theorems about the transcription M of the TCP/TLS branch of coap_read_session: reader_eq_spec (for every list of "
             "chunks the messages reaching coap_dispatch, their order, whether the session is closed and the reader's final state equal "
             "what the RFC 8323/8974 framing specification S computes from the concatenated bytes), hence reader_segmentation_invariant / "
-            "reader_cut_invariant for all streams and all cut placements, oversize_closes, no_message_stuck, reader_no_oob. WebSocket: "
-            "specification S_ws and model M_ws of coap_ws_rd_http_header / coap_ws_read / the WS loop of coap_read_session; proved only "
-            "in part (first handshake line under every segmentation, long-line and oversize closing clauses); the full WS correspondence "
-            "rests on differential runs I = M_ws = S_ws (exhaustive 1-3 cut placements on short streams, one byte per read, cuts at "
-            "every header byte). Nine defects found on the way are fixed in /repo (1 TCP, 8 WebSocket).",
+            "reader_cut_invariant for all streams and all cut placements, oversize_closes, no_message_stuck, reader_no_oob. WebSocket "
+            "(S_ws = HTTP upgrade lines + RFC 6455 frames, M_ws = coap_ws_rd_http_header / coap_ws_read / the WS loop of "
+            "coap_read_session): frame phase at full strength - ws_frames_eq_spec (from every reader state of the invariant WsInv "
+            "with the handshake done, for every list of chunks: messages, order, closed-or-not = S_ws on pending ++ concatenated "
+            "bytes), ws_frames_segmentation_invariant, ws_frames_cut_invariant, ws_frames_no_message_stuck, ws_frames_no_oob; for every "
+            "byte stream and segmentation ws_reader_no_oob (never outside http_hdr[160] / rd_header[14], never stalled) and "
+            "ws_reader_final_state (an open session holds at most a proper prefix of one frame or an unfinished header line); whole "
+            "connection incl. the upgrade - ws_reader_eq_spec_partial, ws_reader_segmentation_invariant_partial, "
+            "ws_reader_cut_invariant_partial, ws_no_message_stuck_partial, ws_reader_no_oob_partial for every list of chunks whose "
+            "header block has no NUL byte in a complete line and no accepted line starting with its separator (hsCleanOf); outside "
+            "that sub-domain model and specification differ (ws_blank_led_line_differs). Nine defects found on the way are fixed in "
+            "/repo (1 TCP, 8 WebSocket).",
     "note": "Trusted: Lean kernel (+ propext, Classical.choice, Quot.sound), harness/stream.c (chunk feeder replacing the socket layer, "
             "dispatch hook 2de516c), generators, the hand transcriptions M / M_ws (checked against the compiled code on the cases run "
-            "only). PARTIAL for WebSocket: ws_reader_eq_spec is not proved; theorems ending in _partial state exactly what is.",
+            "only). PARTIAL for the WebSocket handshake: the theorems ending in _partial carry the hypothesis hsCleanOf on the header "
+            "block (libcoap takes a header line that starts with a blank for the end of the block; NUL bytes are C-string ends); "
+            "the frame phase is proved without such a hypothesis.",
     "design_ref": "DESIGN.md §4 C05, design/C05.md",
 }
 LEAN_MODULES = ["CoapVerif.Props.C05"]
 NAMESPACE = "Coap.C05"
 REQUIRED_THEOREMS = ["reader_eq_spec", "reader_segmentation_invariant", "reader_cut_invariant", "oversize_closes", "no_message_stuck",
                      "reader_no_oob", "spec_delivers_complete_frame", "ws_long_line_closes",
-                     "ws_first_line_segmentation_invariant_partial", "ws_first_line_eq_spec_partial"]
+                     "ws_first_line_segmentation_invariant_partial", "ws_first_line_eq_spec_partial",
+                     "ws_frames_eq_spec", "ws_frames_segmentation_invariant", "ws_frames_cut_invariant",
+                     "ws_frames_no_message_stuck", "ws_frames_no_oob", "ws_init_inv", "ws_up_inv",
+                     "ws_reader_eq_spec_partial", "ws_reader_segmentation_invariant_partial", "ws_reader_cut_invariant_partial",
+                     "ws_no_message_stuck_partial", "ws_reader_no_oob_partial", "ws_blank_led_line_differs",
+                     "ws_reader_no_oob", "ws_reader_final_state"]
 RULE = ("(byte stream, segmentation) pairs replayed into the real coap_read_session of a TCP / WebSocket session whose lowest "
         "layer is a chunk feeder: streams = 1-6 encoded messages (all four TCP length forms, tokens 0..extended, a share of "
         "field-mutated frames, oversize declared lengths, small configured maxima; WS: handshake + masked/unmasked frames with "
@@ -40,7 +54,8 @@ ASSUMPTIONS = ["the transport returns the bytes of the stream in order, in arbit
                "0 < coap_session_max_pdu_rcv_size(session) <= COAP_DEFAULT_MAX_PDU_RX_SIZE - 6 (true for every csm_max_message_size >= 64 "
                "that coap_context_set_csm_max_message_size accepts)",
                "the event loop is level-triggered: coap_read_session is called again while bytes are available",
-               "WebSocket handshake lines contain no NUL byte; which header lines are acceptable is a parameter of S (D17)",
+               "WebSocket handshake lines contain no NUL byte and no accepted header line starts with a blank (hsCleanOf, the "
+               "hypothesis of the ws_*_partial theorems); which header lines are acceptable is a parameter of S (D17)",
                "compiled Lean definitions agree with the kernel's reading of them"]
 SPEC_DECISIONS = ["D13 declared length = Len + token field, compared with coap_session_max_pdu_rcv_size",
                   "D14 reserved TKL 15: token field taken as empty, frame dropped, stream continues",
@@ -386,6 +401,35 @@ def gen_ws(ctx, n_streams, exhaustive_upto, n_exh):
     return out
 
 
+def gen_ws_empty_runs(ctx, n_streams):
+    """long runs of frames without data in front of a message: `goto next_frame` in coap_ws_read is not bounded
+    (the model once stopped after 16 such frames in one read; the WS correspondence proof found it)"""
+    rng = ctx.rng
+    out = []
+    for i in range(n_streams):
+        mode = rng.choice(["c", "s"])
+        hs = W.handshake(mode, rng, 0)
+        masked = mode == "s"
+        frames = []
+        for blk in range(rng.choice([1, 1, 2])):
+            frames += [W.frame(b"", masked, lenform=rng.choice([None, None, None, 16, 64]),
+                               mask=G.rbytes(rng, 4) if masked else None)
+                       for _ in range(rng.choice([7, 14, 15, 16, 17, 18, 25, 40]))]
+            frames.append(ws_frame(rng, mode, ws_msg(rng, 0)))
+        body = b"".join(frames)
+        stream = hs + body
+        n, h = len(stream), len(hs)
+        segs = [[], [h], [h - 3], [h, h + 2 * rng.randrange(1, 20) + rng.randrange(2)], seg_random(rng, n),
+                sorted(set(rng.sample(range(h, n), min(n - h, 3))))]
+        seen = set()
+        for cs in segs:
+            cs = [c for c in cs if 0 < c < n]
+            if tuple(cs) not in seen:
+                seen.add(tuple(cs))
+                out.append(ws_line(mode, stream, cs))
+    return out
+
+
 def generate(ctx, escalate=False):
     if ctx.thorough():
         lines = gen_tcp(ctx, 6000, 40, 60) + gen_ws(ctx, 5000, 16, 80)
@@ -393,6 +437,7 @@ def generate(ctx, escalate=False):
         lines = gen_tcp(ctx, 1000, 22, 8) + gen_ws(ctx, 500, 12, 10)
     if escalate:
         lines += gen_tcp(ctx, 1500, 22, 8) + gen_ws(ctx, 600, 12, 10)
+    lines += gen_ws_empty_runs(ctx, 60 if ctx.thorough() else 12)
     ctx.cov["exhaustive"] = ("every 1-, 2- and 3-cut placement of %d TCP streams and of the frame part of %d WS streams"
                              % (ctx.cov.get("exhaustive_streams", 0), ctx.cov.get("ws_exhaustive_streams", 0)))
     return ["consts"] + gen_tcp_cap_boundary(ctx) + lines
